@@ -573,6 +573,7 @@ void hm_sweep() {
       bool found = it != c->end();
       if (found != present || (found && (keyv(it) != k || valv(it) != ref[k]))) fail("ORACLE", "%s: find(%d) disagrees with the reference value %d", phase, k, ref[k]);
       count += present;
+      if (present && insert(k, IsMap ? 7 : k)) fail("ORACLE", "%s: insertion of the present key %d succeeded", phase, k);
     }
     bool seen[MAXK * 3] = {};
     int yielded = 0, last = -1;
